@@ -917,6 +917,106 @@ def _scalarise_records(fn: ast.AST, keep: set[str] | None = None) -> bool:
     return True
 
 
+def _fuse_generators(fn: ast.AST, keep: set[str] | None = None) -> bool:
+    """N27: `g = (f(i) for i in R)` (call-free f, one clause, no filter) consumed once, as the iterable of a comprehension
+    clause `for t in g` whose target is a plain name: the clause becomes `for i in R` with t replaced by f(i)."""
+    if not isinstance(fn, (ast.FunctionDef, ast.AsyncFunctionDef)):
+        return False
+    done = False
+    for _o, blk in list(_blocks(fn)):
+        for st in list(blk):
+            if not (isinstance(st, ast.Assign) and len(st.targets) == 1 and isinstance(st.targets[0], ast.Name) and isinstance(st.value, (ast.GeneratorExp, ast.ListComp))):
+                continue
+            g = st.targets[0].id
+            gen = st.value
+            if g in (keep or ()) or len(gen.generators) != 1 or gen.generators[0].ifs or gen.generators[0].is_async or not isinstance(gen.generators[0].target, ast.Name):
+                continue
+            if any(isinstance(x, (ast.Call, ast.Await, ast.NamedExpr, ast.Lambda)) for x in ast.walk(gen.elt)):
+                continue
+            occ = [x for x in ast.walk(fn) if isinstance(x, ast.Name) and x.id == g]
+            if len(occ) != 2:
+                continue
+            use = next(x for x in occ if isinstance(x.ctx, ast.Load))
+            comp = None
+            for c in ast.walk(fn):
+                if isinstance(c, (ast.ListComp, ast.SetComp, ast.DictComp, ast.GeneratorExp)):
+                    for cl in c.generators:
+                        if cl.iter is use and isinstance(cl.target, ast.Name) and not cl.is_async:
+                            comp, clause = c, cl
+            if comp is None or comp is gen:
+                continue
+            inner_var = gen.generators[0].target.id
+            names_in_comp = {x.id for x in ast.walk(comp) if isinstance(x, ast.Name)}
+            if inner_var in names_in_comp:
+                continue
+            # names the element reads must not be rebound between the two statements
+            reads = {x.id for x in ast.walk(gen.elt) if isinstance(x, ast.Name)} - {inner_var}
+            k0, k1 = blk.index(st), next((i for i, y in enumerate(blk) if any(z is comp for z in ast.walk(y))), None)
+            if k1 is None or k1 <= k0 or any(reads & _stores(y) for y in blk[k0 + 1:k1]):
+                continue
+            t = clause.target.id
+            sub = _Sub({t: gen.elt})
+            if isinstance(comp, ast.DictComp):
+                comp.key = sub.visit(comp.key)
+                comp.value = sub.visit(comp.value)
+            else:
+                comp.elt = sub.visit(comp.elt)
+            idx = comp.generators.index(clause)
+            for later in comp.generators[idx + 1:]:
+                later.iter = sub.visit(later.iter)
+                later.ifs = [sub.visit(i_) for i_ in later.ifs]
+            clause.ifs = [sub.visit(i_) for i_ in clause.ifs]
+            clause.target = ast.copy_location(ast.Name(id=inner_var, ctx=ast.Store()), clause.target)
+            clause.iter = gen.generators[0].iter
+            blk.remove(st)
+            ast.fix_missing_locations(fn)
+            done = True
+    return done
+
+
+def _inline_star_tuples(fn: ast.AST, keep: set[str] | None = None) -> bool:
+    """N28: `t = (a, b)` (plain names / attribute reads) used only as `f(*t)`: the call is `f(a, b)` when nothing between
+    the binding and the call stores to what a and b read."""
+    if not isinstance(fn, (ast.FunctionDef, ast.AsyncFunctionDef)):
+        return False
+    done = False
+    for _o, blk in list(_blocks(fn)):
+        for st in list(blk):
+            if not (isinstance(st, ast.Assign) and len(st.targets) == 1 and isinstance(st.targets[0], ast.Name) and isinstance(st.value, ast.Tuple) and st.value.elts
+                    and all(_simple(x) and not isinstance(x, ast.Lambda) for x in st.value.elts)):
+                continue
+            t = st.targets[0].id
+            if t in (keep or ()):
+                continue
+            occ = [x for x in ast.walk(fn) if isinstance(x, ast.Name) and x.id == t]
+            stars = [c for c in ast.walk(fn) if isinstance(c, ast.Call) for a_ in c.args if isinstance(a_, ast.Starred) and isinstance(a_.value, ast.Name) and a_.value.id == t]
+            if len(occ) != len(stars) + 1 or not stars:
+                continue
+            k0 = blk.index(st)
+            holders = [i for i, y in enumerate(blk) if any(any(z is c for z in ast.walk(y)) for c in stars)]
+            if not holders or min(holders) <= k0:
+                continue
+            roots = {x.id for e_ in st.value.elts for x in ast.walk(e_) if isinstance(x, ast.Name)}
+            attrs = {x.attr for e_ in st.value.elts for x in ast.walk(e_) if isinstance(x, ast.Attribute)}
+            between = blk[k0 + 1:max(holders) + 1]
+            if any(roots & _stores(y) for y in between):
+                continue
+            if any(isinstance(z, ast.Attribute) and isinstance(z.ctx, (ast.Store, ast.Del)) and z.attr in attrs for y in between for z in ast.walk(y)):
+                continue
+            for c in stars:
+                new_args = []
+                for a_ in c.args:
+                    if isinstance(a_, ast.Starred) and isinstance(a_.value, ast.Name) and a_.value.id == t:
+                        new_args += [copy.deepcopy(e_) for e_ in st.value.elts]
+                    else:
+                        new_args.append(a_)
+                c.args = new_args
+            blk.remove(st)
+            ast.fix_missing_locations(fn)
+            done = True
+    return done
+
+
 def _default_rebind(fn: ast.AST, keep: set[str] | None = None) -> bool:
     """N25: `v = a; if v is None: v = b` with `a` a plain name / attribute and v a new local is `v = a if a is not None else b`
     (the default-value idiom written as a rebinding)."""
@@ -1013,6 +1113,8 @@ def _fold(fn: ast.AST, keep: set[str] | None = None) -> None:
     _split_tuple_assigns(fn)
     if isinstance(fn, (ast.FunctionDef, ast.AsyncFunctionDef)):
         _scalarise_records(fn, keep)
+        _fuse_generators(fn, keep)
+        _inline_star_tuples(fn, keep)
         _default_rebind(fn, keep)
         if _split_versions(fn, keep):
             fn._kfv_resplit = True  # type: ignore[attr-defined]
